@@ -54,6 +54,10 @@ type Case struct {
 	// other protocol, still open during the whole case. Reporters are independent objects: what one
 	// measures and sends must not depend on the other.
 	Pred int `json:"pred,omitempty"`
+	// ManySets: after the metrics of the case were allocated, that many further counters with tag
+	// sets of their own are allocated on the same reporter (never reported): high tag cardinality
+	// must not touch what the earlier handles send
+	ManySets int `json:"manySets,omitempty"`
 }
 
 func genTags(t *rapid.T, max int) pbt.M {
@@ -83,6 +87,9 @@ func gen(t *rapid.T) Case {
 	c.Common = genTags(t, 8)
 	c.Queue = rapid.SampledFrom([]int{1, 2, 16, 4096}).Draw(t, "queue")
 	c.Pred = rapid.SampledFrom([]int{0, 0, 0, 1, 2, 2, 3}).Draw(t, "pred")
+	if rapid.IntRange(0, 9).Draw(t, "manySets?") == 0 {
+		c.ManySets = rapid.SampledFrom([]int{300, 1100, 4200, 4200, 9000}).Draw(t, "manySets")
+	}
 	switch rapid.IntRange(0, 49).Draw(t, "preAge") {
 	case 0:
 		c.PreAge = 17000
@@ -359,6 +366,12 @@ func run(c Case) (pbt.Outcome, error) {
 				hs[i].hb = append(hs[i].hb, h.DurationBucket(p.LowerBoundDuration(), p.UpperBoundDuration()))
 			}
 		}
+	}
+	for i := 0; i < c.ManySets; i++ {
+		r.AllocateCounter("filler", map[string]string{"set": fmt.Sprint(i), "kkkkkkkkkkkkkkkk": "vvvvvvvvvvvvvvvvvvvvvvvvvvvvvvvvvvvvvvvv"})
+	}
+	if c.ManySets > 0 {
+		out.Classes = append(out.Classes, "many-tag-sets")
 	}
 	kindOf := func(k string) m3thrift.MetricType {
 		switch k {
